@@ -29,6 +29,10 @@ FUNCTIONS = [
     "core/vm.calcMemSize",
     "core/vm.gasMLoad", "core/vm.gasMStore", "core/vm.gasMStore8", "core/vm.gasCreate", "core/vm.gasReturn", "core/vm.gasRevert",
     "core/vm.(*Contract).UseGas",
+    "core/vm.gasBalance", "core/vm.gasExtCodeSize", "core/vm.gasSLoad",
+    "core/vm.(*ecrecover).RequiredGas", "core/vm.(*sha256hash).RequiredGas", "core/vm.(*ripemd160hash).RequiredGas",
+    "core/vm.(*dataCopy).RequiredGas", "core/vm.(*fakebn256Add).RequiredGas", "core/vm.(*fakebn256ScalarMul).RequiredGas",
+    "core/vm.(*fakebn256Pairing).RequiredGas",
     "common/math.SafeAdd", "common/math.SafeSub", "common/math.SafeMul",
     "common/math.BigMax", "common/math.BigMin", "common/math.S256",
     # rlp (C11)
@@ -37,18 +41,19 @@ FUNCTIONS = [
     "rpc.isProtectedMethodName",
     # core (C06)
     "core.(*GasPool).SubGas", "core.(*GasPool).AddGas", "core.(*GasPool).Gas",
-    "core.(*StateTransition).useGas",
+    "core.(*StateTransition).useGas", "core.(*StateTransition).gasUsed",
     # core/types, crypto (C12)
     "core/types.isProtectedV", "core/types.deriveChainId", "crypto.ValidateSignatureValues",
     # params (C13, C14, C08)
     "params.isForked", "params.(*ChainConfig).IsHF", "params.(*ChainConfig).GetBlockVersion", "params.(*ChainConfig).GetHF",
     "params.(*ChainConfig).IsHomestead", "params.(*ChainConfig).IsByzantium", "params.(*ChainConfig).IsConstantinople",
+    "params.(*ChainConfig).IsEIP150", "params.(*ChainConfig).IsEIP155", "params.(*ChainConfig).IsEIP158", "params.(*ChainConfig).IsDAOFork",
 ]
 EXTERN = ["rlp.intsize"]
 EXPECT_REFUSED = ["rlp.intsize", "core.IntrinsicGas", "core/bloombits.calcBloomIndexes",   # loops
                   "rlp.puthead",                                                           # heap write (slice element)
                   "core/vm.RunPrecompiledContract",                                        # dynamic (interface) call
-                  "core/vm.(*sha256hash).RequiredGas"]                                     # slice parameter
+                  "core/vm.getData"]                                                       # slice indexing
 
 
 
